@@ -20,8 +20,10 @@ CHECKS = {
             '64 method classes (all 2^k bit combinations) x channels, plus '
             'dense interior sweeps (every octet/short/channel value, every '
             'string length 0..4200 at every UTF-8 alignment, every table / '
-            'array entry count, frames above 128 KiB), also right after '
-            'refused operations; round-trip compared with the documented '
+            'array entry count, every field-name length in 1-4 byte characters, '
+            'every nesting depth 1..128 (200), frames above 128 KiB), also '
+            'right after refused operations and operations failing in the '
+            'middle of a container; round-trip compared with the documented '
             'normalisation.',
             TB, '3/C01'),
     'C02': ('E1', 'explicit-state enumeration: all 8192 presence subsets x '
@@ -29,7 +31,9 @@ CHECKS = {
             MC + 'C02: all 2^13 presence subsets, every alternative value of '
             'every property against subsets of the others, pairs, the empty-'
             'string spelling, body size x channel; every body size 0..69999 '
-            'and 2^k+-64, every channel, every priority and string length.',
+            'and 2^k+-64, every channel, every priority and string length; '
+            'header tables keyed by names of <= 128 characters but 130..255 '
+            'bytes.',
             TB, '3/C02'),
     'C03': ('E1', 'explicit-state enumeration of field values: boundary '
             'scalars x positions, all tree shapes <= N nodes, all L/D chains',
@@ -38,7 +42,10 @@ CHECKS = {
             'labelling, every chain up to depth 10 (14), depth 32; '
             'homogeneous arrays/tables of 15 element kinds for every count '
             '0..69 and selected counts to 400 (2000) with one foreign '
-            'element; all arrays <= 3 (4) over 31 tag-letter-bearing values.',
+            'element; all arrays <= 3 (4) over 31 tag-letter-bearing values; '
+            'every nesting depth 1..130 (200) in four list/dict patterns '
+            '(acceptance required to 32, round trip required for whatever is '
+            'accepted beyond).',
             TB, '3/C03'),
     'C04': ('E1', 'explicit-state enumeration (C01+C02+C03+C18 spaces); '
             'byte-for-byte comparison with an independent reference encoder',
@@ -46,19 +53,26 @@ CHECKS = {
             'the union of the C01, C02, C03 spaces and bodies/heartbeat/'
             'protocol header equals the reference encoder; one object of '
             'every class re-encoded after every step of an assign / mutate-'
-            'in-place script (constructed and decoded objects).', TB,
+            'in-place script (constructed and decoded objects) incl. in-place '
+            'changes of byte-array leaves and poison / repair of one '
+            'unencodable leaf (five kinds) at three depths.', TB,
             '3/C04'),
     'C05': ('E1', 'reference-generator enumeration of grammar-valid frames '
             '(all tags, all 8/16-bit payloads, liberties) decoded by both '
             'decoders', MC + 'C05: wire frames the library never emits, '
             'generated from the grammar, decoded by the reference decoder '
-            'and by the library, results compared.', TB, '3/C05'),
+            'and by the library, results compared; tag L with the top bit '
+            'set is held to one reading at every position and array length '
+            '(differential oracle).', TB, '3/C05'),
     'C06': ('E2', 'explicit-state exploration of the receive loop: all frame '
             'sequences <= n over K_seq x all (consumed, received) states; '
             'envelope invariant over all E4 inputs',
             MC + 'C06: every (c, r) state of every frame sequence up to '
             'length 3 (4) over a 15-frame adversarial set, every corpus '
-            'frame x 9 trailers, envelope clause on every successfully '
+            'frame x 9 fixed trailers and 7-44 trailers derived from the frame '
+            'itself (the frames that may follow it, well-formed / malformed / '
+            'cut), every K_seq frame and pair as bytearray / memoryview / '
+            'slices of larger buffers, envelope clause on every successfully '
             'decoded input of the fault spaces (incl. relation-aware length '
             'rewrites of 6-17 KiB frames).', TB +
             'Purity of unmarshal (C16) collapses chunkings to (c, r).',
@@ -66,7 +80,7 @@ CHECKS = {
     'C07': ('E4', 'exhaustive crash-point enumeration: every valid corpus '
             'frame x every cut point', MC + 'C07: every strict prefix of '
             'every corpus frame (1.7 M distinct prefixes in quick) must raise '
-            'UnmarshalingException.', TB + 'Frames above 4096 bytes are cut '
+            'UnmarshalingException, also with debug logging switched on.', TB + 'Frames above 4096 bytes are cut '
             'at a structural subset of offsets.', '3/C07'),
     'C08': ('E4+E5', 'exhaustive fault enumeration (corruptions, every length '
             'rewrite, small strings in envelopes) under a deterministic step '
@@ -74,19 +88,23 @@ CHECKS = {
             'is decoded under a step monitor (calls + jumps inside pamqp); '
             'budget 256 + 16*len; tracemalloc peak <= 256 KiB + 64*len on '
             'the first call, <= 64 KiB retained after the result is dropped; '
-            'nested length lies per level, large dense values, relation-'
-            'aware length rewrites of 6-17 KiB frames.',
+            'nested length lies per level, n sibling containers whose inner '
+            'length reaches to the parent end (n up to 1024 / 2048), large '
+            'dense values, relation-aware length rewrites of 6-17 KiB frames.',
             TB + 'Work measured in interpreter-level steps, not C-level '
             'work.', '3/C08'),
     'C09': ('E4', 'exhaustive fault enumeration: single-byte corruptions, '
             'field rewrites, truncations, small strings in envelopes, header '
             'shapes', MC + 'C09: every input of the E4 fault spaces either '
-            'decodes or raises UnmarshalingException.', TB, '3/C09'),
+            'decodes or raises UnmarshalingException; truncations, short '
+            'strings and header shapes again with debug logging on.', TB,
+            '3/C09'),
     'C10': ('E1', 'explicit-state enumeration: every public encoder and '
             'every argument of every class x adversarial value alphabets; '
             'oracle raise-or-round-trip', MC + 'C10: every encoder entry '
             'point x adversarial values (out-of-range, wrong type, non-'
-            'finite, oversize, falsy non-dicts, non-boolean bits): the call '
+            'finite, oversize, falsy non-dicts, non-boolean bits, buffer '
+            'objects with items wider than a byte): the call '
             'raises or its output decodes to the normalised input and leaves '
             'every other argument unchanged; dense sweeps: every integer '
             '-66000..66000 and +-300 around 2^31/32/63/64 through 8 integer '
@@ -102,21 +120,29 @@ CHECKS = {
             'observation modes (same objects re-encoded after each event); '
             'in each state all integers of [-70000, 70000] and every ladder '
             'boundary neighbourhood at four positions against the reference '
-            'ladder.', TB, '3/C11'),
+            'ladder; integers of thousands of digits; int subclasses '
+            '(IntEnum) with fresh classes per sequence of <= 4 switch '
+            'settings; one continuous history with N never-seen integers '
+            'between probe and toggle for every N of 0..599 (1099).', TB,
+            '3/C11'),
     'C12': ('E1', 'explicit-state enumeration: all insertion-order '
             'permutations of colliding keys x nested permutations x '
             'positions; repeated encoding with deep before/after snapshots',
             MC + 'C12: 720 (4320) insertion orders at 4 positions equal the '
             'sorted reference; every corpus frame/value encoded twice with '
             'identity-and-content snapshots; equal-but-distinct twins '
-            '(Decimal exponents, 1/True/1.0, 0.0/-0.0, DST fold twins).', TB,
+            '(Decimal exponents, 1/True/1.0, 0.0/-0.0, DST fold twins); equal '
+            'unordered collections filled in different orders (sets, dict '
+            'views, mapping types) encode equally if accepted.', TB,
             '3/C12'),
     'C13': ('E1', 'explicit-state enumeration: every constrained argument '
             'site x all Unicode code points / lengths / fixed-field values x '
             '3 ways, vs an independent predicate', MC + 'C13: 41 sites from '
             'the spec table; every code point 0..0x10FFFF in four positions '
             '(2 sites quick, 20 thorough); constructor, setattr+marshal, '
-            'decode.', TB + 'None and identity-only differences are left '
+            'decode; object-reuse histories: every sequence of length 2-3 of '
+            'freshly built valid / broken values on one long-lived object x '
+            '3 encode patterns.', TB + 'None and identity-only differences are left '
             'out.', '3/C13'),
     'C14': ('E1', 'complete enumeration of a finite catalogue against a '
             'transcribed specification table', MC + 'C14: every fact of all '
@@ -127,7 +153,9 @@ CHECKS = {
             'per-child reference check + identical result digests',
             MC + 'C15: 14 TZ settings (thorough: the whole tz database) x '
             '~26 k instants x ~12 input forms (both folds of every wall time '
-            'consecutively, through four timestamp paths); bytes == >Q of '
+            'consecutively, through four timestamp paths; 11-field struct_times, '
+            'environment-built struct_times, a tzinfo without offset, '
+            'datetime subclasses); bytes == >Q of '
             'the absolute '
             'instant, decoded value UTC-aware; SHA-256 of the whole result '
             'table identical across children.', TB, '3/C15'),
@@ -135,12 +163,17 @@ CHECKS = {
             'event histories <= depth (fresh import each) vs fresh-'
             'interpreter baselines; preemption-bounded exhaustive thread '
             'schedule exploration (line-level scheduling points)',
-            MC + 'C16: BFS over 53 API events with a deep library-state '
+            MC + 'C16: BFS over 63 API events (incl. environment changes: '
+            'decimal context, debug logging; mid-container failures; poison '
+            'then repair of kept objects; deep copies; base classes first) '
+            'with a deep library-state '
             'hash closes at 2 states; all histories of depth <= 2, all '
             'a;b;a, all depth-3 over 16 core events (thorough: all depth 3) '
             'replayed from a fresh import and compared per event with a '
             'fresh-interpreter baseline, aliasing oracle on returned '
-            'objects; 16 thread harnesses, every schedule with <= 2 (3) '
+            'objects (a library reference to a returned object counts only '
+            'with an observable consequence); 18 thread harnesses, every '
+            'schedule with <= 2 (3) '
             'preemptions at source-line granularity from a warm library and '
             '<= 1 from a freshly imported one, results equal the '
             'sequential ones; witness harness proves real interleaving.',
@@ -161,7 +194,8 @@ CHECKS = {
             'len, membership, item access, attributes(), amqp_type agree '
             'with the spec-table name list and the current attribute '
             'values; foreign names include every key and string found among '
-            'the object\'s own values.', TB, '3/C19'),
+            'the object\'s own values; 8 orders of first use on a freshly '
+            'imported library.', TB, '3/C19'),
     'C20': ('E4', 'exhaustive enumeration of header byte patterns + client '
             'procedure over every library-encoded corpus frame',
             MC + 'C20: frame_parts on every short buffer and 5^7 + 7x256x5 '
